@@ -125,25 +125,42 @@ func isBaseRemover(f *ssa.Function) bool {
 		return false
 	}
 	cmp := false
-	eachInstr(f, func(in ssa.Instruction) {
-		if bo, ok := in.(*ssa.BinOp); ok && bo.Op == token.EQL {
-			if mentionsField(bo.X, pkgDomain, "Endpoint", "Name", 2) && mentionsField(bo.Y, pkgDomain, "Endpoint", "Name", 2) {
-				cmp = true
+	for _, g := range withAnon(f) { // the name test may sit in a predicate closure (slices.IndexFunc)
+		eachInstr(g, func(in ssa.Instruction) {
+			if bo, ok := in.(*ssa.BinOp); ok && bo.Op == token.EQL {
+				if mentionsField(bo.X, pkgDomain, "Endpoint", "Name", 3) && mentionsField(bo.Y, pkgDomain, "Endpoint", "Name", 3) {
+					cmp = true
+				}
 			}
-		}
-	})
+		})
+	}
 	if !cmp {
 		return false
+	}
+	resliceOf := func(v ssa.Value) bool {
+		s, ok := v.(*ssa.Slice)
+		return ok && s.X == ssa.Value(sl)
 	}
 	shrinks := false
 	for _, ret := range returnsOf(f) {
 		v := retResult(ret, 0)
-		if v == sl {
+		if v == ssa.Value(sl) {
 			continue
 		}
-		if s, ok := v.(*ssa.Slice); ok && s.X == sl {
+		if resliceOf(v) {
 			shrinks = true
 			continue
+		}
+		if call, ok := v.(*ssa.Call); ok {
+			// append(s[:i], s[i+1:]...) — both operands re-slices of the parameter — or slices.Delete(s, i, j)
+			if bi, isB := call.Call.Value.(*ssa.Builtin); isB && bi.Name() == "append" && len(call.Call.Args) == 2 && resliceOf(call.Call.Args[0]) && resliceOf(call.Call.Args[1]) {
+				shrinks = true
+				continue
+			}
+			if ci := describeCall(&call.Call); ci.Pkg == "slices" && strings.HasPrefix(ci.Name, "Delete") && len(call.Call.Args) > 0 && call.Call.Args[0] == ssa.Value(sl) {
+				shrinks = true
+				continue
+			}
 		}
 		return false
 	}
